@@ -8,7 +8,7 @@ from lib.runner import Stage, Violation, hyp_drive
 
 RULE = ("n in [0,2^64): all 65,536 values of each of the four 16-bit lanes with the other lanes all-0 and all-1 (524,288 "
         "values, enumerated in both tiers), single bits, 2^k+-1, boundaries, valid cell ids of every shape, Hypothesis "
-        "integers, atheris on raw bytes (thorough). Oracle: round-trip, regex ^(0|[1-9a-f][0-9a-f]*)$, equality with '%x' % n, "
+        "integers, atheris on raw bytes (thorough); call sequences over a small pool mixing ints with equal-valued floats, negative ints and malformed strings (rejected requests must not affect later in-domain calls). Oracle: round-trip, regex ^(0|[1-9a-f][0-9a-f]*)$, equality with '%x' % n, "
         "upper-case and zero-padded parsing. Non-trivial = n >= 2^32 (the repository suite stops below); distinct by n.")
 ASSUMPTIONS = ["python's own '%x' formatting is the reference for canonical lower-case hexadecimal"]
 PAT = re.compile(r"^(0|[1-9a-f][0-9a-f]*)$")
@@ -35,6 +35,8 @@ def judge_n(n, col=None, record=True, cls="hyp"):
 
 
 def judge(case, col):
+    if "seq" in case:
+        return judge_sequence(case, col)
     judge_n(case["n"], col, cls=case.get("cls", "hyp"))
 
 
@@ -72,6 +74,49 @@ def stage_hyp(ctx):
     hyp_drive(ctx, cases(), judge, 3000 if ctx.tier == "quick" else 50000)
 
 
+def judge_sequence(case, col):
+    """In-domain calls must be right whatever was asked before, including requests the library rejects: sequences over
+    a small pool mixing ints with equal-valued floats, out-of-range and negative ints, and malformed strings."""
+    import a5
+    for kind, v in case["seq"]:
+        if kind == "int":
+            judge_n(v, record=False)
+        elif kind == "float":
+            try:
+                a5.u64_to_hex(float(v))
+            except Exception:  # noqa: BLE001 - out of domain: any outcome is allowed, it just must not poison later calls
+                pass
+        elif kind == "neg":
+            try:
+                a5.u64_to_hex(-v)
+            except Exception:  # noqa: BLE001
+                pass
+        elif kind == "str":
+            try:
+                a5.hex_to_u64(v)
+            except Exception:  # noqa: BLE001
+                pass
+    col.case(case, nontrivial=any(k != "int" for k, _ in case["seq"]) and any(k == "int" and v >= 1 << 32 for k, v in case["seq"]),
+             classes=("sequence",))
+
+
+def sequences():
+    small = st.one_of(st.integers(0, 1 << 53), st.integers(0, 1000), gens.cell_ids(0, 12))
+    pool = st.lists(small, min_size=1, max_size=3)
+
+    def seqs(vals):
+        item = st.one_of(st.tuples(st.just("int"), st.sampled_from(vals)), st.tuples(st.just("int"), st.sampled_from(vals)),
+                         st.tuples(st.just("float"), st.sampled_from(vals)), st.tuples(st.just("neg"), st.sampled_from(vals)),
+                         st.tuples(st.just("str"), st.sampled_from(["", "0x", "xyz", "-1", " 1f", "1f "])),
+                         st.tuples(st.just("int"), st.integers(1 << 32, (1 << 64) - 1)))
+        return st.lists(item, min_size=2, max_size=8)
+    return pool.flatmap(seqs).map(lambda q: {"seq": [list(x) for x in q]})
+
+
+def stage_sequences(ctx):
+    hyp_drive(ctx, sequences(), judge_sequence, 600 if ctx.tier == "quick" else 15000)
+
+
 def decode_case(fdp):
     return {"n": fdp.ConsumeIntInRange(0, (1 << 64) - 1), "cls": "fuzz"}
 
@@ -82,7 +127,7 @@ def stage_fuzz(ctx):
 
 
 def plan(tier):
-    st_ = [Stage("lanes", 8, stage_lanes, cost=5), Stage("special", 1, stage_special), Stage("hyp", 8, stage_hyp, cost=3)]
+    st_ = [Stage("lanes", 8, stage_lanes, cost=5), Stage("special", 1, stage_special), Stage("hyp", 8, stage_hyp, cost=3), Stage("sequences", 4, stage_sequences, cost=2)]
     if tier == "thorough":
         st_.append(Stage("fuzz", 2, stage_fuzz, cost=5))
     return st_
